@@ -48,6 +48,14 @@ def run(ctx, replay=None):
                 except Exception as e:
                     ctx.count('cv_rejected', type(e).__name__)
                     continue
+                # the metric name is documented as case-insensitive: every accepted spelling selects the same score
+                spell = rng.choice([metric.upper(), metric.capitalize(), metric[:1] + metric[1:].upper()])
+                try:
+                    sc3 = V.cross_validate(n=cv_n, metric=spell, seed=cv_seed)
+                    if not gen.close(sc1, sc3, 1e-12):
+                        ctx.problem('oracle', 'metric %r returns another score than %r' % (spell, metric), s, {'metric': metric, 'spelling': spell, 'lower': float(sc1), 'spelled': float(sc3)}, {'what': 'metric-spelling'})
+                except ValueError:
+                    ctx.count('spelling_rejected', spell)
                 if not gen.close(sc1, sc2, 1e-12) :
                     ctx.problem('oracle', 'a seeded cross-validation is not reproducible', s, {'metric': metric, 'first': float(sc1), 'second': float(sc2)}, {'what': 'seed-reproducible'})
                 idx = np.random.default_rng(cv_seed).choice(N, replace=False, size=size)
